@@ -4,6 +4,6 @@ CONSTANTS
     MaxVals = 2
     MaxIds = 8
     MaxSteps = 5
-INVARIANTS Inv EmitHist
+INVARIANTS Inv
 VIEW LedgerView
 CHECK_DEADLOCK FALSE
